@@ -12,7 +12,7 @@ from . import common
 ID = "C19"
 NEEDS_MODEL = False
 LEVEL = "exploration"
-N = {"quick": 1600, "thorough": 16000}
+N = {"quick": 1600, "thorough": 48000}
 TECHNIQUE = ("runtime monitoring: differential text monitor on the real compiler - section omitted "
              "vs the independently computed default written out - over seeded generated specs")
 
